@@ -731,7 +731,10 @@ def fam_selfmon(tier, base):
         n, gen = _sim_inputs("MC_Selfmon", "MC_Selfmon_sim.cfg", 30 if q else 600, 40, f, seen, keep=40 if q else 1200)
         # every sequence of 4 (thorough: 6) heartbeats / lapses / agent reports on one node with a running watcher
         rf = verif.model_check("MC_Selfmon", "MC_Selfmon_focus4.cfg" if q else "MC_Selfmon_focus6.cfg", timeout=3000, workers=1)
-        for x in dict.fromkeys(rf.tagged("INPUT")):
+        # every sequence of 3 steps on nodes that have a workload, the watcher started by one of them - plainly, or with a
+        # node's status disappearing while its initial scan is under way
+        rs = verif.model_check("MC_Selfmon", "MC_Selfmon_startup.cfg", timeout=3000, workers=1)
+        for x in list(dict.fromkeys(rf.tagged("INPUT"))) + [y for y in dict.fromkeys(rs.tagged("INPUT")) if "startlapse" in y]:
             if x not in seen:
                 seen.add(x)
                 f.write(x + "\n")
